@@ -379,7 +379,7 @@ def gen_cases(ctx):
                     if seen > 1 or n > 60:
                         hist[i] = full[2]
         yield dict(grid_base(r, timed, r.choice(["se3", "pq"]), n=n), ops=hist, stream="long-grid")
-    n_rand = 700 if ctx.thorough else 120
+    n_rand = 700 if ctx.thorough else 300 if ctx.extended else 120
     maxn = 200 if ctx.thorough else 60
     for _ in range(n_rand):
         b, n = rand_base(r, maxn)
